@@ -1,0 +1,103 @@
+// Copyright 2013-2020 go-diameter authors. All rights reserved.
+// Use of this source code is governed by a BSD-style license that can be
+// found in the LICENSE file.
+
+//go:build verif
+
+package diam
+
+import (
+	"net"
+	"sync"
+	"time"
+
+	"github.com/ishidawataru/sctp"
+)
+
+// Verification hook (build tag "verif" only): lets a test run the multi-stream
+// code of SCTPConn - stream buffering, ReadAny / ReadStream / ReadAtLeast,
+// WriteStream - over an in-memory association instead of a kernel SCTP socket.
+// The methods below shadow the ones promoted from the embedded *sctp.SCTPConn
+// and dispatch to a backend registered for the connection; connections without
+// a backend behave exactly as without the tag.
+
+// VerifSCTPBackend is the socket-level interface SCTPConn needs.
+type VerifSCTPBackend interface {
+	SCTPRead(b []byte) (int, *sctp.SndRcvInfo, error)
+	SCTPWrite(b []byte, info *sctp.SndRcvInfo) (int, error)
+	Close() error
+	LocalAddr() net.Addr
+	RemoteAddr() net.Addr
+}
+
+var verifSCTPBackends sync.Map // *SCTPConn -> VerifSCTPBackend
+
+// NewSCTPConnVerif returns a multi-stream connection backed by b.
+func NewSCTPConnVerif(b VerifSCTPBackend) MultistreamConn {
+	msc := &SCTPConn{s: &streams{}, currStream: InvalidStreamID, writerStream: InvalidStreamID}
+	verifSCTPBackends.Store(msc, b)
+	return msc
+}
+
+func (msc *SCTPConn) verifBackend() VerifSCTPBackend {
+	if b, ok := verifSCTPBackends.Load(msc); ok {
+		return b.(VerifSCTPBackend)
+	}
+	return nil
+}
+
+func (msc *SCTPConn) SCTPRead(b []byte) (int, *sctp.SndRcvInfo, error) {
+	if be := msc.verifBackend(); be != nil {
+		return be.SCTPRead(b)
+	}
+	return msc.SCTPConn.SCTPRead(b)
+}
+
+func (msc *SCTPConn) SCTPWrite(b []byte, info *sctp.SndRcvInfo) (int, error) {
+	if be := msc.verifBackend(); be != nil {
+		return be.SCTPWrite(b, info)
+	}
+	return msc.SCTPConn.SCTPWrite(b, info)
+}
+
+func (msc *SCTPConn) Close() error {
+	if be := msc.verifBackend(); be != nil {
+		return be.Close()
+	}
+	return msc.SCTPConn.Close()
+}
+
+func (msc *SCTPConn) LocalAddr() net.Addr {
+	if be := msc.verifBackend(); be != nil {
+		return be.LocalAddr()
+	}
+	return msc.SCTPConn.LocalAddr()
+}
+
+func (msc *SCTPConn) RemoteAddr() net.Addr {
+	if be := msc.verifBackend(); be != nil {
+		return be.RemoteAddr()
+	}
+	return msc.SCTPConn.RemoteAddr()
+}
+
+func (msc *SCTPConn) SetDeadline(t time.Time) error {
+	if msc.verifBackend() != nil {
+		return nil
+	}
+	return msc.SCTPConn.SetDeadline(t)
+}
+
+func (msc *SCTPConn) SetReadDeadline(t time.Time) error {
+	if msc.verifBackend() != nil {
+		return nil
+	}
+	return msc.SCTPConn.SetReadDeadline(t)
+}
+
+func (msc *SCTPConn) SetWriteDeadline(t time.Time) error {
+	if msc.verifBackend() != nil {
+		return nil
+	}
+	return msc.SCTPConn.SetWriteDeadline(t)
+}
